@@ -28,10 +28,18 @@ func DirectClient(obj Actor) Client {
 	return NewClient(NewContext(proxy))
 }
 
+// The identifiers of the objects hosted on the client side are drawn
+// from one counter for the whole process: a connection can carry
+// several references to one service (Proxy.ProxyService makes a new
+// one each time), and the objects they host are told apart by their
+// identifier alone.
+var (
+	clientObjectNextID      uint32
+	clientObjectNextIDMutex sync.Mutex
+)
+
 type clientService struct {
 	serviceID       uint32
-	nextID          uint32
-	nextIDMutex     sync.Mutex
 	objectsHandlers map[uint32]int
 	objectsMutex    sync.RWMutex
 	session         Session
@@ -55,14 +63,14 @@ func (c *clientService) ServiceID() uint32 {
 
 func (c *clientService) Add(obj Actor) (uint32, error) {
 
-	c.nextIDMutex.Lock()
-	if c.nextID > (1<<31)-1 {
-		c.nextIDMutex.Unlock()
+	clientObjectNextIDMutex.Lock()
+	if clientObjectNextID > (1<<31)-1 {
+		clientObjectNextIDMutex.Unlock()
 		return 0, fmt.Errorf("object ID overflow")
 	}
-	id := 1<<31 + c.nextID
-	c.nextID++
-	c.nextIDMutex.Unlock()
+	id := 1<<31 + clientObjectNextID
+	clientObjectNextID++
+	clientObjectNextIDMutex.Unlock()
 
 	filter := func(hdr *net.Header) (matched bool, keep bool) {
 		if hdr.Service == c.serviceID && hdr.Object == id {
